@@ -2673,6 +2673,10 @@ def _infer_size_impl(shape: List[int], numel: int) -> List[int]:
         raise AssertionError("invalid shape")
     out = _copy(shape)
     if infer_dim is not None:
+        if newsize == 0:
+            raise AssertionError(
+                "cannot infer the size of a dimension when another one is 0: it can be any value"
+            )
         out[infer_dim] = numel // newsize
     return out
 
